@@ -359,6 +359,15 @@ def build_detector(d: dict, dtype, complex_fields: bool, dt: float):
         if "axes" in d:
             kw["axes"] = tuple(d["axes"])
         return fdtdx.ClosedSurfacePhasorPoyntingFluxDetector(wave_characters=wcs, orientation=d.get("orientation", "outward"), **kw, **common)
+    if k == "projection_angle":  # near-to-far-field projection detector (box volume or single plane): a PhasorDetector subclass
+        kw = {}
+        for key in ("scaling_mode", "dft_subsample", "direction"):
+            if key in d:
+                kw[key] = d[key]
+        common["dtype"] = jnp.complex128 if dtype == jnp.float64 else jnp.complex64
+        for key in ("plot", "exact_interpolation"):
+            common.pop(key, None)
+        return fdtdx.FieldProjectionAngleDetector(wave_characters=tuple(fdtdx.WaveCharacter(wavelength=w) for w in d["wavelengths"]), **kw, **common)
     if k == "phasor":
         kw = {}
         for key in ("scaling_mode", "dft_subsample"):
@@ -607,7 +616,14 @@ def build_scene(spec: dict, apply: bool = True, material_arrays: dict | None = N
         objects = [byname[n] for n in order]
 
     key = jax.random.PRNGKey(int(spec.get("key", 0)))
-    oc, arrays, params, config, info = fdtdx.place_objects(object_list=objects, config=config, constraints=constraints, key=key)
+    try:
+        oc, arrays, params, config, info = fdtdx.place_objects(object_list=objects, config=config, constraints=constraints, key=key)
+    except Exception as e:
+        # the external mode solver (tidy3d -> scipy ARPACK) occasionally fails to converge on (nearly) degenerate modes of a
+        # small or homogeneous cross-section; that is no property of fdtdx: the scene counts as rejected
+        if "ARPACK" in str(e) or "ArpackError" in repr(e):
+            raise NotImplementedError("scene rejected: external mode solver (ARPACK) did not converge") from None
+        raise
 
     if mats["mode"] == "random":
         # config.symmetry keeps the upper half of every symmetric axis: random arrays are drawn for the reduced domain
@@ -619,7 +635,12 @@ def build_scene(spec: dict, apply: bool = True, material_arrays: dict | None = N
 
     scene = Scene(spec=spec, objects=oc, arrays=arrays, config=config, params=params, info=info, key=key)
     if apply:
-        scene = apply_scene(scene, reapply=material_arrays is not None)
+        try:
+            scene = apply_scene(scene, reapply=material_arrays is not None)
+        except Exception as e:
+            if "ARPACK" in str(e) or "ArpackError" in repr(e):
+                raise NotImplementedError("scene rejected: external mode solver (ARPACK) did not converge") from None
+            raise
     return scene
 
 
